@@ -11,6 +11,7 @@ ROOT = os.path.dirname(os.path.abspath(__file__))
 sys.path.insert(0, os.path.join(ROOT, "tools"))
 import gen  # noqa: E402
 import plans  # noqa: E402
+import literal  # noqa: E402
 
 BUILD = os.path.join(ROOT, "build")
 COQ = os.path.join(ROOT, "coq")
@@ -252,6 +253,81 @@ def collect(hs, script, impl, model, judge, hangs, merr):
                     rec["judge_fail"] = jf
             if l.endswith(" undet"):
                 rec["undet"] = True
+        # C12 read literally: what the accessors report must equal what a full read of the same handle shows. Checked on
+        # the implementation's own answers (independent of model and judge state): after `read_all u u` answered with lines,
+        # the accessor calls that follow - until the next operation that can change the series - must agree with it.
+        shown = None
+        failed_ops = {jf["op_index"] for jf in rec["judge_fails"]}
+        for j, op in enumerate(ops):
+            a = ri[j] if j < len(ri) else None
+            if a is None:
+                break
+            res = a[2:].split(" | ")[0].strip()
+            ko = plans.opkind(op)
+            if op == "read_all u u":
+                t = res.split()
+                shown = t[2:] if (len(t) >= 2 and t[0] == "ok" and t[1].isdigit() and int(t[1]) == len(t) - 2) else None
+                continue
+            if ko not in plans.PURE_OPS:
+                shown = None
+                continue
+            if shown is None or j in failed_ops or not res.startswith("ok"):
+                continue
+            want = None
+            if ko == "len": want = "ok %d" % len(shown)
+            elif ko == "is_empty": want = "ok %d" % (1 if not shown else 0)
+            elif ko == "range" and shown: want = "ok %s %s" % (shown[0].split(":")[0], shown[-1].split(":")[0])
+            elif ko == "last_line" and shown: want = "ok %s" % shown[-1]
+            if want is not None and res != want:
+                jf = {"op_index": j, "op": op, "what": "result %s :: got %s :: but the full read just before showed %d lines%s" %
+                      (op, res, len(shown), (" from %s to %s" % (shown[0], shown[-1])) if shown else ""), "consistency": True}
+                rec["judge_fails"].append(jf)
+                if rec["judge_fail"] is None:
+                    rec["judge_fail"] = jf
+        # C06 / C15 read literally on the bytes of a `dump` (tools/literal.py): a series that was created or opened with
+        # success, closed normally, and whose files no fault operation touched since; C15 only for a series this history
+        # created and never touched at all (a foreign file need not be canonical)
+        glines = gi[k] if k < len(gi) else []
+        dumps, cur, nr = {}, None, -1
+        for l in glines:
+            if l.startswith("R "):
+                nr += 1; cur = nr
+            elif l.startswith("D ") and cur is not None:
+                t = l.split(" ")
+                if len(t) >= 3:
+                    try:
+                        dumps.setdefault(cur, {})[t[1]] = b"" if t[2] == "-" else bytes.fromhex(t[2])
+                    except ValueError:
+                        pass
+        clean, created, touched, openname, closed_ok = set(), set(), set(), None, None
+        for j, op in enumerate(ops):
+            a = ri[j] if j < len(ri) else None
+            if a is None:
+                break
+            res = a[2:].split(" | ")[0].strip()
+            kk = plans.opkind(op)
+            if kk in ("new", "open"):
+                nm = op.split()[1]
+                openname, closed_ok = (nm if res.startswith("ok") else None), None
+                if res.startswith("ok"):
+                    clean.add(nm)
+                    if kk == "new": created.add(nm); touched.discard(nm)
+                else:
+                    clean.discard(nm)
+            elif kk == "close":
+                closed_ok = openname if (res == "ok" and openname) else None
+                openname = None
+            elif kk.startswith("fs_") and kk != "fs_asset":
+                f = op.split()[1]
+                nm = f.split(":")[1] if ":" in f else f
+                clean.discard(nm); touched.add(nm); closed_ok = None
+            elif kk == "dump" and j in dumps and closed_ok and closed_ok in clean and (first_bad is None):
+                rec["literal_checked"] = rec.get("literal_checked", 0) + 1
+                for prop, text in literal.check_series(closed_ok, dumps[j], closed_ok in created and closed_ok not in touched):
+                    jf = {"op_index": j, "op": op, "what": text, "props": [prop], "consistency": True}
+                    rec["judge_fails"].append(jf)
+                    if rec["judge_fail"] is None:
+                        rec["judge_fail"] = jf
         recs.append(rec)
     return recs
 
@@ -391,8 +467,10 @@ def check(pid, tier, seed):
         v = violations[0]
         path = os.path.join(BUILD, "replay", "%s-%d.bs" % (pid, seed))
         with open(path, "w") as f:
-            f.write("# VIOLATION of %s found by the judge (Layer S/F) on the implementation\n# history %s, op %d: %s\n# %s\n" %
-                    (pid, v["h"]["id"], v["judge_fail"]["op_index"], v["judge_fail"]["op"], v["judge_fail"]["what"]))
+            by = ("the literal reading of the property on the implementation's own answers and files (bsv collect, tools/literal.py)"
+                  if v["judge_fail"].get("consistency") else "the judge (Layer S/F) on the implementation")
+            f.write("# VIOLATION of %s found by %s\n# history %s, op %d: %s\n# %s\n" %
+                    (pid, by, v["h"]["id"], v["judge_fail"]["op_index"], v["judge_fail"]["op"], v["judge_fail"]["what"]))
             f.write("# replay: /verif/bsv replay %s\n" % path)
             f.write("history %s\n" % v["h"]["id"] + "\n".join(v["h"]["lines"]) + "\n")
         print("VIOLATION property=%s replay=%s" % (pid, path))
@@ -431,6 +509,7 @@ def check(pid, tier, seed):
         "families": fams,
         "ops_run": sum(r["nops"] for r in recs), "ops_judged": sum(r["judged"] for r in recs),
         "histories_undetermined": sum(1 for r in recs if r["undet"]),
+        "literal_file_checks": sum(r.get("literal_checked", 0) for r in recs),
         "correspondence_disagreements": len(disagreements),
         "known_findings_hit": {k: len(v) for k, v in known_hits.items()},
         "broken": [list(p) for p in problems],
